@@ -96,6 +96,25 @@ pub struct Sd {}
 #[unit(Sf_Kilo, "k/c", KILO, 1000)]
 pub struct Sf {}
 
+// with reference unit whose symbol is EMPTY (a "count"), an alias of scale one declared BEFORE the
+// `#[ref_unit]` attribute, and no SI prefix anywhere: an empty symbol does not make a type unit-less
+#[quantity]
+#[unit(Se_Each, "ea", 1, "alias of the reference unit, declared first")]
+#[ref_unit(Se_Piece, "")]
+#[unit(Se_Gross, "gr", 144)]
+#[unit(Se_Dozen, "doz", 12)]
+pub struct Se {}
+
+// derived: the reference unit of the RESULT has no SI prefix while other units of it have one
+// (every unit is eligible for `_fit`, prefixed or not)
+#[quantity(Se * Sc)]
+#[ref_unit(Sg_Ref, "g")]
+#[unit(Sg_Kilo, "kg", KILO, 1000)]
+#[unit(Sg_Deca, "dag", DECA, 10)]
+#[unit(Sg_Big, "Bg", 500)]
+#[unit(Sg_Centi, "cg", CENTI, 0.01)]
+pub struct Sg {}
+
 // the two very large types live in their own file: the kernel-evaluated theorems over the synthetic
 // definitions (`Gen.Synth.items`) do not need them, the correspondence does
 mod big;
